@@ -7,7 +7,7 @@
                            whose virtual node wins the probe loop (Proofs.v).
    R >= 1 is New's precondition (it panics otherwise); probes may be anything. *)
 From Coq Require Import List NArith ZArith Arith Bool.
-From Verif.C45 Require Import Model Spec Proofs Link.
+From Verif.C45 Require Import Model Spec Proofs Link Search Nearest.
 Import ListNotations.
 
 (* One owner from the current members: after any history, Lookup answers with the (latest) value of a
@@ -61,6 +61,31 @@ Theorem c45_model_meets_spec : forall (h : list N -> N) (R P : nat), (1 <= R)%na
   ok_trace ops (model_obs h R P (new val R P) ops os) = true.
 Proof. exact model_meets_spec. Qed.
 Print Assumptions c45_model_meets_spec.
+
+
+(* Faithfulness of the model's bisection (slices.BinarySearchFunc with fuel len+1): on the table that
+   Lookup searches after any history it returns the index of the first entry whose hash is >= the probe
+   (len when there is none), so the fuel never runs out and no out-of-range branch is taken. *)
+Theorem c45_search_is_first_ge : forall (h : list N -> N) (R P : nat), (1 <= R)%nat ->
+  forall (ops : list (op val)) (p : N),
+  search (r_entries val (prepare val (ring_after h R P ops))) p
+  = first_ge (r_entries val (prepare val (ring_after h R P ops))) p.
+Proof. exact search_after_history. Qed.
+Print Assumptions c45_search_is_first_ge.
+
+
+(* What the owner is (consistent hashing with virtual nodes and multi-probe): the winning member ok is a
+   current member, and one of its R virtual nodes is at the smallest clockwise distance from one of the P
+   probes of the key, among all virtual nodes of all current members and all probes. *)
+Theorem c45_owner_is_nearest : forall (h : list N -> N) (R P : nat), (1 <= R)%nat -> (1 <= P)%nat ->
+  forall (ops : list (op val)) (q ok : key),
+  owner_key h val (ring_after h R P ops) q = Some ok ->
+  sm_get (sm_of ops) ok <> None /\
+  exists a i, (a < R)%nat /\ (i < P)%nat /\
+    forall m b j, sm_get (sm_of ops) m <> None -> (b < R)%nat -> (j < P)%nat ->
+      (ring_dist (salted h q i) (salted h ok a) <= ring_dist (salted h q j) (salted h m b))%N.
+Proof. exact owner_is_nearest. Qed.
+Print Assumptions c45_owner_is_nearest.
 
 (* ---- the hypotheses are satisfiable by non-trivial states (a maximally colliding hash: the length) ---- *)
 Definition ex_hash (b : list N) : N := N.of_nat (length b).
